@@ -148,7 +148,11 @@ text=("Model of Glob (component loop, literal fast path, directory scan with the
               "renderings, and expanding it yields exactly one field equal to the string (escaped in Pattern mode), store unchanged; any word of such "
               "quoted parts (mixed style) expands to the concatenation. The scanner model is tied to the lexer by comparing the word AST the parser "
               "builds for every string <=2 (thorough 3) symbols over 30 special characters in the three styles; the expansion model by C13/C14's "
-              "correspondence. NOT proved: default mode with pathname expansion enabled (observed with matching files present)."),
+              "correspondence. Pattern mode ('escaped so that they match only themselves'): the set of escaped characters is read from the source; proved for every rune string "
+              "that the pattern compiler turns the escaped text into literal items only, one per character, and that a bracket expression whose content is quoted text "
+              "compiles to one class whose members are exactly the characters of the text (no range, no negation, no early end; Expand/QuotedLiteral.v), with byte-level "
+              "corollaries for ASCII text; the harness checks the escaped form semantically and quoted text inside unquoted bracket expressions. "
+              "NOT proved: default mode with pathname expansion enabled (observed with matching files present); decoding of non-ASCII pattern bytes into runes (correspondence)."),
         note=BASE_NOTE + "The scanner model covers the quoting fragment only ($, backquote, # at word start are outside it).",
         technique="Coq round-trip theorems (scanner model + expansion model) + scanner correspondence + adversarial-environment expansion check",
         design="5 C15"),
